@@ -11,5 +11,5 @@ if t==s: print("NO CHANGE"); sys.exit(1)
 open(p,'w').write(t)
 PY
 (cd $S && GOFLAGS=-mod=mod GOPROXY=off GOSUMDB=off GOTOOLCHAIN=local go build ./... ) || { echo "does not build"; rm -rf $S; exit 2; }
-/verif/bin/gvc verify -repo $S -timeout 6000 -canaries=false "$@" 2>&1 | grep -v "failed=0" | cut -c1-240
+GVC_CONTRACTS=mirror ${GVC:-/verif/bin/gvc} verify -repo $S -timeout 6000 -canaries=false "$@" 2>&1 | grep -v "failed=0" | cut -c1-240
 rm -rf $S
